@@ -47,7 +47,9 @@ func (e *ExprICmp) Type() types.Type {
 		case *types.IntType, *types.PointerType:
 			e.Typ = types.I1
 		case *types.VectorType:
-			e.Typ = types.NewVector(xType.Len, types.I1)
+			typ := types.NewVector(xType.Len, types.I1)
+			typ.Scalable = xType.Scalable
+			e.Typ = typ
 		default:
 			panic(fmt.Errorf("invalid icmp operand type; expected *types.IntType, *types.PointerType or *types.VectorType, got %T", xType))
 		}
@@ -99,7 +101,9 @@ func (e *ExprFCmp) Type() types.Type {
 		case *types.FloatType:
 			e.Typ = types.I1
 		case *types.VectorType:
-			e.Typ = types.NewVector(xType.Len, types.I1)
+			typ := types.NewVector(xType.Len, types.I1)
+			typ.Scalable = xType.Scalable
+			e.Typ = typ
 		default:
 			panic(fmt.Errorf("invalid fcmp operand type; expected *types.FloatType or *types.VectorType, got %T", xType))
 		}
